@@ -106,6 +106,10 @@ def run_unit(unit):
         for box in ("B_asym", "B_dec"):
             for N in (10, 30, 60, 100, 150):
                 _min_check(res, unit, box, {"maxfun": N}, unit["seed"], obj="infhole")
+                _min_check(res, unit, box, {"maxfun": N}, unit["seed"], obj="nanhalf")
+            for M in (1, 2, 4):
+                for obj in ("nanhole", "nanhalf", "infhole"):
+                    _min_check(res, unit, box, {"maxiter": M}, unit["seed"], obj=obj)
         res.configs += 1
         res.configs_completed += 1
     elif unit["kind"] == "minimize-iter":
